@@ -103,3 +103,43 @@ impl WdMap { pub uninterp spec fn pairs(&self) -> Seq<(RewardAddress, Coin)>; }
 #[verifier::external_body] pub fn vec_sort_by_<T, F: Fn(&T, &T) -> core::cmp::Ordering>(v: &mut Vec<T>, cmp: F)
     requires forall|a: &T, b: &T| call_requires(cmp, (a, b))
     ensures final(v)@.to_multiset() == old(v)@.to_multiset() { unimplemented!() }
+
+// ---- WithdrawalsBuilder::add*: which kind of entry an account may get (C10: "no redeemer points at an item that is not script-locked")
+impl Clone for Credential { #[verifier::external_body] fn clone(&self) -> (r: Self) ensures r == *self { unimplemented!() } }
+/// LinkedHashMap::insert on the entry-sequence model (R-lhm): an existing key keeps its position and gets the new value, a new key goes to the end
+pub open spec fn wd_upsert(s: Seq<(RewardAddress, (Coin, Option<ScriptWitnessType>))>, k: RewardAddress, v: (Coin, Option<ScriptWitnessType>)) -> Seq<(RewardAddress, (Coin, Option<ScriptWitnessType>))> {
+    if exists|i: int| 0 <= i < s.len() && s[i].0 == k { let i = choose|i: int| 0 <= i < s.len() && s[i].0 == k; s.update(i, (k, v)) } else { s.push((k, v)) }
+}
+#[verifier::external_body] pub fn lhm_insert_wd_(m: &mut Vec<(RewardAddress, (Coin, Option<ScriptWitnessType>))>, k: RewardAddress, v: (Coin, Option<ScriptWitnessType>))
+    ensures final(m)@ == wd_upsert(old(m)@, k, v) { unimplemented!() }
+pub struct NativeScriptSource(pub NativeScriptSourceEnum);
+clone_eq!(NativeScriptSourceEnum);
+
+// ---- CertificatesBuilder::add*: a certificate enters the sequence once, at the end, with the kind of witness its credential calls for
+clone_eq!(Certificate);
+impl Certificate {
+    /// the certificate is authorised by a script credential (has_required_script_witness: its own table is not under contract here)
+    pub uninterp spec fn needs_script(&self) -> bool;
+    #[verifier::external_body] pub fn has_required_script_witness(&self) -> (r: bool) ensures r == self.needs_script() { unimplemented!() }
+}
+pub open spec fn has_cert(s: Seq<(Certificate, Option<ScriptWitnessType>)>, c: Certificate) -> bool { exists|i: int| 0 <= i < s.len() && (#[trigger] s[i]).0 == c }
+/// LinkedHashMap::contains_key / insert of a NEW key on the entry-sequence model (R-lhm)
+#[verifier::external_body] pub fn lhm_contains_cert_(m: &Vec<(Certificate, Option<ScriptWitnessType>)>, k: &Certificate) -> (r: bool) ensures r == has_cert(m@, *k) { unimplemented!() }
+#[verifier::external_body] pub fn lhm_insert_cert_(m: &mut Vec<(Certificate, Option<ScriptWitnessType>)>, k: Certificate, v: Option<ScriptWitnessType>)
+    requires !has_cert(old(m)@, k) ensures final(m)@ == old(m)@.push((k, v)) { unimplemented!() }
+
+// ---- VotingBuilder::add*: which kind of entry a voter may get
+opaque_types!(GovernanceActionId, VotingProcedure);
+clone_eq!(GovernanceActionId, VotingProcedure);
+impl Clone for Voter { #[verifier::external_body] fn clone(&self) -> (r: Self) ensures r == *self { unimplemented!() } }
+impl VotesOfVoter {
+    /// BTreeMap::new / insert of the votes of one voter (what is voted on is not part of the claim here)
+    #[verifier::external_body] pub fn new_() -> (r: VotesOfVoter) { unimplemented!() }
+    #[verifier::external_body] pub fn insert(&mut self, k: GovernanceActionId, v: VotingProcedure) -> (r: Option<VotingProcedure>) { unimplemented!() }
+}
+pub open spec fn has_voter(s: Seq<(Voter, VoterVotes)>, k: Voter) -> bool { exists|i: int| 0 <= i < s.len() && (#[trigger] s[i]).0 == k }
+/// `self.votes.entry(k).or_insert(d)` on the entry-sequence model of the BTreeMap (R-entryorinsert): the entry of k - the existing one, or d put at k's place in the order -
+/// handed out as a mutable borrow; every other entry stays
+#[verifier::external_body] pub fn votes_or_insert_(m: &mut Vec<(Voter, VoterVotes)>, k: Voter, d: VoterVotes) -> (r: &mut VoterVotes)
+    ensures has_voter(old(m)@, k) ==> exists|i: int| 0 <= i < old(m)@.len() && old(m)@[i].0 == k && *r == old(m)@[i].1 && final(m)@ == old(m)@.update(i, (k, *final(r))),
+            !has_voter(old(m)@, k) ==> *r == d && exists|p: int| 0 <= p <= old(m)@.len() && final(m)@ == old(m)@.insert(p, (k, *final(r))) { unimplemented!() }
